@@ -138,6 +138,16 @@ static int cmd_run(int argc, char** argv)
 
     if (world == "seq")
     {
+        // tell the orchestrator when a call that has its own crash class is in flight
+        g_seq_call_hook = [](const char* tag) {
+            static bool on = false;
+            bool        now = tag[0] != 0;
+            if (now == on)
+                return;
+            on = now;
+            printf("CTX %s\n", now ? tag : "-");
+            fflush(stdout);
+        };
         GenProfile prof = profile_for(prop, thorough);
         for (uint64_t i = from; i < to; ++i)
         {
@@ -320,6 +330,7 @@ static int cmd_replay(int argc, char** argv)
     return fp.v.any() ? 1 : 0;
 }
 
+static int g_ctx_fd = -1;
 // Executes the plan in a forked child; returns the violation class it ends in:
 // the check id, "crash" for a sanitizer abort / signal, "hang" for a timeout, "" for a clean run.
 static std::string classify_forked(const js::Value& plan, std::string* props_out = nullptr, std::string* detail_out = nullptr)
@@ -340,8 +351,16 @@ static std::string classify_forked(const js::Value& plan, std::string* props_out
             dup2(devnull, 2);
         }
         alarm(20);
+        // the child reports which call it is about to make: if it dies, the last tag says where
+        g_ctx_fd         = fds[1];
+        g_seq_call_hook  = [](const char* tag) {
+            char    b[64];
+            int     n = snprintf(b, sizeof b, "\x01%s\n", tag);
+            ssize_t w = write(g_ctx_fd, b, (size_t)n);
+            (void)w;
+        };
         Fingerprint fp = run_plan_json(plan, nullptr);
-        std::string s  = fp.v.check + "\n" + fp.v.props_str() + "\n" + fp.v.detail + "\n";
+        std::string s  = "\x02" + fp.v.check + "\n" + fp.v.props_str() + "\n" + fp.v.detail + "\n";
         ssize_t     w  = write(fds[1], s.data(), s.size());
         (void)w;
         _exit(0);
@@ -355,13 +374,33 @@ static std::string classify_forked(const js::Value& plan, std::string* props_out
     close(fds[0]);
     int status = 0;
     waitpid(pid, &status, 0);
+    // last context tag written before the result (or before death)
+    std::string last_tag;
+    size_t      res = buf.find('\x02');
+    {
+        size_t pos = 0, lim = res == std::string::npos ? buf.size() : res;
+        while (pos < lim)
+        {
+            size_t e = buf.find('\n', pos);
+            if (e == std::string::npos || e > lim)
+                break;
+            if (buf[pos] == '\x01')
+                last_tag = buf.substr(pos + 1, e - pos - 1);
+            pos = e + 1;
+        }
+    }
+    // a crash inside rr_cache's eviction is its own class: the victim was not a prior resident (C15 as well as C08)
+    const std::string crash = last_tag == "rr_evict" ? "crash.rr_evict" : "crash";
     if (WIFSIGNALED(status))
-        return WTERMSIG(status) == SIGALRM ? "hang" : "crash";
+        return WTERMSIG(status) == SIGALRM ? "hang" : crash;
     if (WIFEXITED(status) && WEXITSTATUS(status) != 0)
-        return "crash";
+        return crash;
+    if (res == std::string::npos)
+        return crash;
+    buf      = buf.substr(res + 1);
     size_t a = buf.find('\n');
     if (a == std::string::npos)
-        return "crash";
+        return crash;
     size_t b = buf.find('\n', a + 1);
     if (props_out && b != std::string::npos)
         *props_out = buf.substr(a + 1, b - a - 1);
